@@ -36,4 +36,15 @@ NEVER use `git stash` (the stash is shared by all worktrees of the repository an
 Leave the worktree clean of source modifications at the end (`git checkout -- scared`); keep only PROPERTY.txt, INSTRUCTIONS.txt and out/.
 Final message: a three-line summary, one per change.
 """)
+# second and later rounds: tell the reviewer which ideas other reviewers already used, so that it diversifies
+import glob
+prev = []
+for m in sorted(glob.glob(f'/verif/seeded/{pid}-m*/notes.txt')):
+    t = ' '.join(open(m).read().split())[:400]
+    prev.append('- ' + t)
+if prev and suf:
+    with open(wt / 'INSTRUCTIONS.txt', 'a') as f:
+        f.write('\nOther reviewers already produced the following changes for this property; yours must be of a DIFFERENT nature (other code sites, other '
+                'mechanisms, other triggering conditions - e.g. state kept between calls, unusual dtypes/shapes/memory layouts, boundary counts, '
+                'argument forms, interaction between two public features, error paths):\n' + '\n'.join(prev) + '\n')
 print(wt)
